@@ -162,16 +162,12 @@ Proof.
   destruct (f_ty f) as [|full|full] eqn:Ety; try discriminate.
   destruct (find_enum D full) as [e|] eqn:Ef; [|discriminate].
   assert (He : In e (d_enums D)) by (eapply find_enum_In; eauto).
-  assert (Hst : exists st0, (match lookup st (enum_key e) with
-                             | Some _ => Ok st
-                             | None => obind (build_enum e) (fun r => Ok ((enum_key e, Linked r) :: st))
-                             end) = Ok st0 /\ InvO st0).
-  { destruct (lookup st (enum_key e)) eqn:El.
-    - exists st. split; [reflexivity|exact HI].
-    - destruct (build_enum e) as [r| | |] eqn:Eb; cbn [obind] in *; try discriminate.
-      exists ((enum_key e, Linked r) :: st). split; [reflexivity|].
-      apply InvO_cons; [exact HI|]. intros r' Hr'. inversion Hr'; subst r'. apply origin_enum; [exact He|].
-      eapply build_enum_is_enum; eauto. }
+  assert (Hst : exists st0, enum_ref st e = Ok st0 /\ InvO st0).
+  { destruct (enum_ref st e) as [st0| | |] eqn:Er; cbn [obind] in H; try discriminate.
+    exists st0. split; [reflexivity|].
+    destruct (enum_ref_inv st e st0 Er) as [[-> _]|(_ & r & Eb & ->)]; [exact HI|].
+    apply InvO_cons; [exact HI|]. intros r' Hr'. inversion Hr'; subst r'. apply origin_enum; [exact He|].
+    eapply build_enum_is_enum; eauto. }
   destruct Hst as (st0 & Hst0 & HI0). rewrite Hst0 in H. cbn [obind] in H.
   match type of H with obind ?o _ = _ => destruct o as [rules| | |]; cbn [obind] in H; try discriminate end.
   inversion H; subst st1 s. split; [exact HI0|].
@@ -210,7 +206,7 @@ Proof.
     { intros fl lr. assert (Ht : is_tmsg f = true) by (unfold is_tmsg; rewrite Ety; reflexivity).
       destruct (is_oneof_wrapper m) eqn:Ew2; cbn [shape_b];
         rewrite (card_ok_b f item Hc), Hk, Ht, Hv, Ef, ref_eqb_refl, Ew2; reflexivity. }
-    destruct (lookup st (msg_key m)) eqn:El; cbn [obind] in H.
+    destruct (lookup st (msg_key m)) as [en|] eqn:El; [destruct (is_enum_entry en); cbn [obind] in H; [discriminate|]|cbn [obind] in H].
     + inversion H; subst st1 s. split; [exact HI|apply Hshape].
     + destruct (rec ((msg_key m, Placeholder) :: st) m) as [[st2 r]| | |] eqn:Er; cbn [obind] in H; try discriminate.
       inversion H; subst st1 s.
